@@ -176,6 +176,12 @@ func (r *Run) report(results []*FuncResult, d *Discharger) int {
 				}
 			default:
 				if isCanary {
+					// a canary marks a recorded finding: it is expected not to discharge. With
+					// quantified hypotheses the solvers answer unknown rather than sat.
+					if k := r.knownFinding(o.Name); k != nil {
+						fmt.Printf("KNOWN-FINDING: property=%s %s [%s; not discharged, solver: %s]\n", k.Property, k.What, o.Name, res.Status)
+						r.knownSeen = append(r.knownSeen, o.Name)
+					}
 					continue
 				}
 				inLedger, oldHash := r.inLedger(fr.Name, o.Name)
